@@ -112,6 +112,11 @@ def instances(tier, seed):
         s = copy.deepcopy(fam.dae_core()[0])
         s.objective = [at_tf(X(0) * X(1))]
         add(spec=fam.with_horizon(s, Hsym[0]), cfg=Cfg('DC', N=2, M=2, grid=g, degree=2, scheme='radau'))
+    # several control symbols: the sampler serves the control VECTOR of the interval the time lies in
+    for method, intg in (('MS', 'rk'), ('DC', None)):
+        s = Spec(nx=2, nu=2, ode=[nl1(X(1)) * U(0) + t * X(0), X(0) - U(1) * X(1)], note='two controls')
+        s.objective = [at_tf(X(0) * X(1))]
+        add(spec=fam.with_horizon(s, Hsym[0]), cfg=Cfg(method, N=3, M=2, intg=intg or 'rk', grid=fam.G_UNI, degree=2, scheme='radau'))
     # SingleShooting with sub-steps (one control interval: the nesting stays shallow)
     for intg in ('rk', 'expl_euler'):
         s = copy.deepcopy(fam.ode_core()[0])
@@ -171,6 +176,11 @@ def run(item):
                     e = ca.jacobian(e, tsym)
                 plan['sampler'][i] = (plan['sampler'][i][0], len(outs))
                 outs.append(e)
+                if spec.nu:
+                    # an expression of the controls through the sampler: inside step i it is the control vector of interval i // M
+                    Fu = st.sampler('su%d' % i, [ca.vcat([u_ * (j_ + 2) for j_, u_ in enumerate(b.us)])])
+                    plan.setdefault('sampler_u', {})[i] = len(outs)
+                    outs.append(Fu(st.gist, ti_[i] + h_i / r))
         finally:
             rstage.low = real_low
         return outs, [tsym]
@@ -292,6 +302,10 @@ def run(item):
                 P('sampler-value', 'sampler(t_%d+%d*delta)[%d]' % (i, j, s), {dd: (fq[iv][j * nx + s] if dd == 'z' else ex[dd][iv][j * nx + s]) for dd in doms}, {dd: xr(dd, i * r + j, s) for dd in doms})
         for s in range(nx):
             P('sampler-degree', 'd^%d sampler/dt^%d [step %d,%d]' % (d + 1, d + 1, i, s), {dd: (fq[idr][s] if dd == 'z' else ex[dd][idr][s]) for dd in doms}, {dd: cst[dd](0) for dd in doms})
+    for i, iu in plan.get('sampler_u', {}).items():
+        for j_ in range(spec.nu):
+            P('sampler-control', 'sampler(%d*u%d)(t in step %d)' % (j_ + 2, j_, i), {dd: (fq[iu][j_] if dd == 'z' else ex[dd][iu][j_]) for dd in doms},
+              {dd: trs[dd].U[i // M][j_] * cst[dd](j_ + 2) for dd in doms})
     res = result(inst, ch, {'violations': viol, 'twins_ok': twins_ok, 'twins_bad': twins_bad, 'shape': '%s|%s' % (cfg.tag(), spec.t0[0] + '/' + spec.T[0]),
                             'sample': {'cfg': cfg.tag(), 'degree': d, 'refine': r, 'steps_with_sampler': steps, 'proved': len(ch.proved)}})
     if viol:
